@@ -17,6 +17,7 @@ RErr(code)  == [t |-> "err", code |-> code]      \* compared by error code (firs
 RArr(a)     == [t |-> "arr", a |-> a]            \* ordered; a : sequence of replies
 RBulks(ss)  == RArr([i \in 1..Len(ss) |-> RBulk(ss[i])])
 RUSet(m)    == [t |-> "uset", m |-> m]           \* unordered collection of distinct bulk strings (array or RESP3 set)
+RUBag(a)    == [t |-> "ubag", a |-> a]           \* unordered collection with repetitions (HVALS); a : sequence of byte strings
 RUMap(p)    == [t |-> "umap", p |-> p]           \* unordered field/value pairs (RESP3 map or flat RESP2 array); p : set of <<f,v>>
 RDouble(bs) == [t |-> "dbl", d |-> bs]           \* double given by its shortest decimal text
 \* random choice: n elements drawn from set m; distinct or with repetition; "one" = a single bulk instead of an array
@@ -26,7 +27,10 @@ RRandPairs(p, n, distinct) == [t |-> "randpairs", p |-> p, n |-> n, distinct |->
 \* integer that depends on the wall clock: v in model time units, unit "s" or "ms"
 RTtl(v, unit) == [t |-> "ttl", v |-> v, unit |-> unit]
 \* absolute time reply (EXPIRETIME/PEXPIRETIME): model time v
-RTime(v, unit) == [t |-> "time", v |-> v, unit |-> unit]
+\* mode: "abs" exact, "sec" given in whole seconds, "rel" set relative to the server clock
+RTime(v, unit, mode) == [t |-> "time", v |-> v, unit |-> unit, mode |-> mode]
+\* LCS: any common subsequence of a and b of the maximal length n
+RLcs(a, b, n) == [t |-> "lcs", a |-> a, b |-> b, n |-> n]
 RAny == [t |-> "any"]                            \* content not specified by the model (INFO text ...)
 
 IsErr(r) == r.t = "err"
